@@ -168,9 +168,18 @@ def judge_history(prop, case, res, reach, refs, what=("events", "obs", "warn"), 
             findings.append(_finding(prop, f"history-vs-fresh/{rec['op']}/{c[0]}", rec, c[1]))
         if r2 and "ref2" in rec:
             ref2 = refs.get(rec["ref2"])
-            d = O.diff(rec.get("obs"), ref2.get("obs"), "", rtol=1e-9)
-            if d:
-                findings.append(_finding(prop, f"vs-constants/{rec['op']}/{O.first_field(d) or 'obs'}", rec, d))
+            o1, o2 = rec.get("obs") or {}, ref2.get("obs") or {}
+            if rec["op"] == "solve":
+                # literal statement (parameters replaced by Constants): other code path, so
+                # only optimal-vs-optimal objective values, at the documented solver accuracy
+                if o1.get("status") == "optimal" and o2.get("status") == "optimal":
+                    reach.probe("r2-solve-compared")
+                    if not O.num_close(o1["obj"], o2["obj"], O.R2_SOLVE_RTOL):
+                        findings.append(_finding(prop, "vs-constants/solve/obj", rec, f"obj {o1['obj']!r} vs constants-model {o2['obj']!r}"))
+            else:
+                d = O.diff(o1, o2, "", rtol=1e-9)
+                if d:
+                    findings.append(_finding(prop, f"vs-constants/{rec['op']}/{O.first_field(d) or 'obs'}", rec, d))
     return findings
 
 
